@@ -12,7 +12,7 @@ use serde_json::json;
 pub static SPEC: PropSpec = PropSpec {
     id: "C08",
     level: "exploration",
-    rule: "tests: closure body shape (14: a captured dyn value used only as dyn-call receiver, arithmetic, if, int / string / tuple / enum matches with the captured variable in one arm only - including only the default arm -, capture through an inner closure only, shadowing inside the body, loops, Ref reads and updates, calling a captured function value, struct field of a captured struct) x capture kind (8: parameter, shadowed let, tuple-pattern variable, match-arm variable, outer closure parameter, value read from a Ref, the Ref cell itself, top-level function value) x flow (6: direct call, returned from a function - directly, in a flat tuple, nested in tuples on the left / right, in a field of a generic struct instantiated at the function type, in a field of a plain struct taken out by a struct pattern -, two closures sharing a Ref returned in a tuple, captured by another closure, created and called in a loop, nested three deep); exhaustive over the product, packed 24 tests per program; plus random closure-heavy programs. non-trivial: all tests; distinct by (shape, capture, flow)",
+    rule: "tests: closure body shape (14: a captured dyn value used only as dyn-call receiver, arithmetic, if, int / string / tuple / enum matches with the captured variable in one arm only - including only the default arm -, capture through an inner closure only, shadowing inside the body, loops, Ref reads and updates, calling a captured function value, struct field of a captured struct) x capture kind (8: parameter, shadowed let, tuple-pattern variable, match-arm variable, outer closure parameter, value read from a Ref, the Ref cell itself, top-level function value) x flow (6: direct call, returned from a function - directly, in a flat tuple, nested in tuples on the left / right, in a field of a generic struct instantiated at the function type, in a field of a plain struct taken out by a struct pattern -, two closures sharing a Ref returned in a tuple, captured by another closure, created and called in a loop, nested three deep); exhaustive over the product, packed 24 tests per program; in every other cell whose body does not mention it, the closure parameter is named like the enclosing function's parameter `a`; plus random closure-heavy programs. non-trivial: all tests; distinct by (shape, capture, flow)",
     eval_counter: "tests",
     assumptions: &["closure values flowing into function-typed parameters / struct fields / heterogeneous branches are outside the clean lattice (recorded C02 finding); relative to refsem and gomini"],
     crash_is_violation: false,
